@@ -360,6 +360,27 @@ func (w *world) checkStealOnWrite(key string, svc *v1.Service) {
 			if _, present, wellFormed := specalloc.RequestedIPs(view); present && !wellFormed {
 				continue // malformed request: whether the record is still admissible is unspecified
 			}
+			// ... and with the REMAINING holders of its addresses (everybody recorded on them except
+			// the writer): a record that the service's own spec change has put in conflict with a
+			// co-tenant (ports, sharing key, backend) is not "still admissible"
+			hold := specalloc.Holdings{}
+			for _, k3 := range w.svcKeys() {
+				if k3 == key || k3 == ok {
+					continue
+				}
+				o3 := w.getSvc(k3)
+				v3 := o3
+				if seen := inc.lastSeen[k3]; seen != nil {
+					v3 = seen
+				}
+				if a3 := statusAddrs(o3); len(a3) > 0 {
+					hold[k3] = specalloc.Holding{IPs: a3, Svc: v3}
+				}
+			}
+			if !inc.cfgInForce.StillAdmissible(ok, view, statusAddrs(other), hold) {
+				w.stat("probe.steal-check-skipped-record-in-conflict-with-a-cotenant")
+				continue
+			}
 			if !specalloc.MayShare(svc, view) {
 				sig := ""
 				if containsAddr(inc.staleDropped[ok], a) {
